@@ -159,7 +159,7 @@ PROPS["C12"] = dict(
          "each per-tree history is then replayed alone and the chain of result traces and canonical dumps must be identical step by step; a tree emptied by deletion is shadowed by a fresh tree fed the same continuation and their structural dumps must stay identical; "
          "half of the scenarios run pinned to one P with the collector off so that a released node is what the next request of that class receives; cross-tree reuse is measured from node addresses in the dumps. distinct_nontrivial = distinct scenarios (chains)",
     assumptions=COMMON_ASSUME + ["pool audit output is diagnostic only"],
-    floors=lambda t: ["twin_runs", "empty_twins_started", "empty_twin_steps"],
+    floors=lambda t: ["twin_runs", "empty_twins_started", "empty_twin_steps", "nested_cross_tree_iterations"],
     soft_floors=lambda t: ["reuse_across_trees_class_4", "reuse_across_trees_class_16", "reuse_across_trees_class_48", "reuse_across_trees_class_256"],
     technique="reference-model + structural-hook monitors under interleaving, twin-run trace comparison, measured pool reuse",
 )
@@ -178,7 +178,7 @@ PROPS["C16"] = dict(
     rule="worker built with -race; scenarios S1 private trees per goroutine (fan-out churn so nodes of every class cross the shared pools), S2 read-only query mixes on one quiescent shared tree (alpha string/[]byte, uint32, int64, float64, compound) with per-goroutine buffers and references, S3 both at once, S0 harness self-test without library calls; "
          "each under several GOMAXPROCS x goroutine-count combinations with seeded Gosched injection; verdict = race detector report blocks naming go-art frames (de-duplicated) + per-goroutine results vs sequential references. distinct_nontrivial = distinct scenario executions",
     assumptions=COMMON_ASSUME + ["the race detector only sees interleavings that execute; its happens-before analysis does not need the racing accesses to collide in time"],
-    floors=lambda t: ["units_S1_private_trees", "units_S2_shared_readers", "units_S3_mixed", "units_selftest", "goroutine_pairs_with_overlapping_run_intervals"],
+    floors=lambda t: ["units_S1_private_trees", "units_S2_shared_readers", "units_S3_mixed", "units_selftest", "goroutine_pairs_with_overlapping_run_intervals", "shared_sequence_value_passes"],
     technique="Go race detector over seeded concurrent scenarios + sequential-reference comparison",
 )
 PROPS["C17"] = dict(
